@@ -45,6 +45,7 @@ func toInt(v any) any {
 		if n, err := strconv.Atoi(x); err == nil {
 			return n
 		}
+		return -1 // not a chunk id the harness made (e.g. a temporary file taken for a chunk): no id of any model
 	case []string:
 		r := make([]int, len(x))
 		for i, e := range x {
